@@ -14,7 +14,8 @@ SPEC.update({
 SPEC["assumptions"] = _m._ASSUME + [
     "leaks are observed when the history fills the pool (every small history ends with capacity+1 allocations by fresh holders) or through Stats; pools without a Stats API (v6 pools, pppoe) are observed through exhaustion only",
     "epoch allocator: stats_exact under the guard is tied (guarded stream) but not proved; exhausted_only_if_full and release are proved under the guard",
-    "failed persistence (store write failure) belongs to DistributedAllocator: see C12",
+    "failed persistence: stream 'dist' fails exactly the k-th store operation (k = 1..3) of every Allocate / AllocateWithMAC / Renew / Release; the DistributedAllocator Model is C12's",
+    "stream 'peers': 2-3 real PeerPool nodes, calls entering at any node under per-node health marks that change between Allocate and Release, conservation judged over all nodes' local pools after every call; rankings are inputs from the real rendezvousRanked; every peer is reachable (a mark is a view, transport outages are not driven)",
     "live subscribers exist only at the level of a server: stream 'srv6' drives the real dhcpv6.Server (lease table + AddressPool + PrefixPool, legacy pools; the integrated PoolAllocator branch, Confirm and Information-Request are not driven) one datagram at a time and judges both pools against the holders the replies created, after every message; an Advertise counts as a tentative holding for the lifetimes it carries; the other servers (dhcp.Server, pppoe.Server, subscriber.Manager) are judged over their pools by C02 / C16, not here",
 ]
 MANIFEST = {
